@@ -16,6 +16,8 @@ THEOREMS = [
     "MoreExec.Timeout.C09_exactly_once",
     "MoreExec.Timeout.C09_at_deadline",
     "MoreExec.Timeout.C09_sleep_invariant",
+    "MoreExec.Timeout.C09_outcome_kept",
+    "MoreExec.Timeout.C09_overdue_not_done",
     "MoreExec.Timeout.K3_partition_spec",
     "MoreExec.Timeout.K3_overdue_strict",
     "MoreExec.Timeout.K3_model_agrees",
